@@ -59,5 +59,65 @@ fn datagram_is_skipped(src: SocketAddr, request_target: SocketAddr) -> (skip: bo
 //%mutant port_ignored "|| src.port() != request_target.port()" => ""
 //%end
 }
+// ---- C16 kernel: "... whose question section names only questions that were asked (with identical letter case when
+//      case randomisation is on)" -- the question check of UdpRequest::send (statement-range extraction) ----
+pub struct Name { pub folded: u64, pub exact: u64 }        // a name up to case (folded) and with its letter case (exact)
+impl Name {
+    // Name::eq_case: label-wise octet equality
+    pub fn eq_case(&self, o: &Name) -> (r: bool) ensures r == (self.exact == o.exact && self.folded == o.folded) { self.exact == o.exact && self.folded == o.folded }
+}
+pub struct Query { pub name: Name, pub qtype: u16, pub qclass: u16 }
+pub open spec fn q_eq(a: Query, b: Query) -> bool { a.name.folded == b.name.folded && a.qtype == b.qtype && a.qclass == b.qclass }   // PartialEq for Query: case-insensitive name, type, class
+impl vstd::std_specs::cmp::PartialEqSpecImpl for Query { open spec fn obeys_eq_spec() -> bool { true } open spec fn eq_spec(&self, o: &Query) -> bool { q_eq(*self, *o) } }
+impl PartialEq for Query { fn eq(&self, o: &Query) -> (r: bool) { self.name.folded == o.name.folded && self.qtype == o.qtype && self.qclass == o.qclass } }
+// slice iterator shims, specified through the closure's own contract
+#[verifier::external_body]
+pub fn vp_all<'s, T, F: Fn(&'s T) -> bool>(s: &'s [T], f: F) -> (r: bool)
+    requires forall|i: int| 0 <= i < s@.len() ==> call_requires(f, (&#[trigger] s@[i],))
+    ensures r ==> forall|i: int| 0 <= i < s@.len() ==> call_ensures(f, (&#[trigger] s@[i],), true),
+        !r ==> exists|i: int| 0 <= i < s@.len() && call_ensures(f, (&#[trigger] s@[i],), false)
+{ s.iter().all(f) }
+#[verifier::external_body]
+pub fn vp_any<'s, T, F: Fn(&'s T) -> bool>(s: &'s [T], f: F) -> (r: bool)
+    requires forall|i: int| 0 <= i < s@.len() ==> call_requires(f, (&#[trigger] s@[i],))
+    ensures r ==> exists|i: int| 0 <= i < s@.len() && call_ensures(f, (&#[trigger] s@[i],), true),
+        !r ==> forall|i: int| 0 <= i < s@.len() ==> call_ensures(f, (&#[trigger] s@[i],), false)
+{ s.iter().any(f) }
+#[verifier::external_body]
+pub fn vp_contains(s: &[Query], q: &Query) -> (r: bool)
+    ensures r == exists|i: int| 0 <= i < s@.len() && q_eq(#[trigger] s@[i], *q)
+{ s.contains(q) }
+pub enum VpQuestionCheck { Accept, Skip, CaseMismatch }
+pub open spec fn asked(req: Seq<Query>, q: Query) -> bool { exists|j: int| 0 <= j < req.len() && q_eq(#[trigger] req[j], q) }
+pub open spec fn asked_same_case(req: Seq<Query>, q: Query) -> bool { exists|j: int| 0 <= j < req.len() && q_eq(#[trigger] req[j], q) && req[j].name.exact == q.name.exact }
+fn question_check(case_randomization: bool, request_queries: &Vec<Query>, response_queries: &mut Vec<Query>) -> (r: VpQuestionCheck)
+    ensures
+        final(response_queries)@ == old(response_queries)@,
+        // C16: a datagram is accepted only if every question it names was asked -- with identical letter case when
+        // case randomisation is on
+        r is Accept ==> forall|i: int| 0 <= i < old(response_queries)@.len() ==> asked(request_queries@, #[trigger] old(response_queries)@[i]),
+        r is Accept && case_randomization ==> forall|i: int| 0 <= i < old(response_queries)@.len() ==> asked_same_case(request_queries@, #[trigger] old(response_queries)@[i]),
+        // a forged question section is skipped (the query goes on waiting), never turned into an error
+        (exists|i: int| 0 <= i < old(response_queries)@.len() && !asked(request_queries@, #[trigger] old(response_queries)@[i])) ==> r is Skip,
+{
+//%expr crates/net/src/udp/udp_client_stream.rs :: impl<P: RuntimeProvider> Request for UdpRequest<P> :: send :: "let question_matches =" .. "continue; }"
+//%sub "response_queries .iter() .all(" => "vp_all(response_queries.as_slice(), " # R-shim: slice iterator `all`, specified through the closure's contract
+//%sub1 "request_queries .iter() .any(" => "vp_any(request_queries.as_slice(), " # R-shim: slice iterator `any`
+//%sub1 "request_queries.contains(elem)" => "vp_contains(request_queries.as_slice(), elem)" # R-shim: <[Query]>::contains
+//%sub1 "self.case_randomization" => "case_randomization" # wrapper parameter
+//%closure "|elem|"@1
+|elem: &Query| -> (b: bool) ensures b == asked(request_queries@, *elem)
+//%closure "|elem|"@2
+|elem: &Query| -> (b: bool) ensures b == asked_same_case(request_queries@, *elem)
+//%closure "|req_q|"
+|req_q: &Query| -> (c: bool) ensures c == (q_eq(*req_q, *elem) && req_q.name.exact == elem.name.exact)
+//%sub1 "return Err(NetError::QueryCaseMismatch);" => "return VpQuestionCheck::CaseMismatch;" # wrapper: the error return of the enclosing fn
+//%sub1 "continue;" => "return VpQuestionCheck::Skip;" # wrapper: `continue` of the enclosing receive loop
+//%mutant case_not_compared "req_q == elem && req_q.name.eq_case(&elem.name)" => "req_q == elem"
+//%mutant forged_question_is_an_error "if !question_matches" => "if false"
+//%end
+    VpQuestionCheck::Accept
+}
+
 } // verus!
 fn main() {}
